@@ -1581,6 +1581,12 @@ func R58() Rule {
 						if call, isC := core.Resolve(f.Cond).(*ssa.Call); isC && f.Polarity && hasCellsPred(call.Call.StaticCallee(), depth+1) {
 							return true
 						}
+						// slices.ContainsFunc(columns, pred) with such a predicate
+						if call, isC := core.Resolve(f.Cond).(*ssa.Call); isC && f.Polarity && isStdGeneric(call, "slices", "ContainsFunc") && len(call.Call.Args) == 2 {
+							if hasCellsPred(closureOf(call.Call.Args[1]), depth+1) {
+								return true
+							}
+						}
 					}
 					return false
 				}
@@ -2440,4 +2446,16 @@ func nonMonotoneFlag(phi *ssa.Phi, hb *ssa.BasicBlock, loop map[*ssa.BasicBlock]
 		}
 	}
 	return nil
+}
+
+// isStdGeneric: call is a call of (an instantiation of) the generic standard-library function pkg.name.
+func isStdGeneric(call *ssa.Call, pkg, name string) bool {
+	f := call.Call.StaticCallee()
+	if f == nil {
+		return false
+	}
+	if o := f.Origin(); o != nil {
+		f = o
+	}
+	return f.Pkg != nil && f.Pkg.Pkg.Path() == pkg && f.Name() == name
 }
